@@ -937,6 +937,19 @@ def r6_close(run):
     reads = [x for x in walk_self(nxt.node) if isinstance(x, ast.Call) and isinstance(x.func, ast.Attribute) and x.func.attr == 'read'
              and is_self_attr(x.func.value, sattr)]
     run.check(bool(reads), 'CloseableStreamIterator reads from the same stream it closes', nxt, 'self.%s.read(...)' % sattr, where=nxt.loc())
+    # exactly once: PEP 3333 obliges the server to call close() on the returned
+    # iterable whatever happens, so the wrapper must not close the stream on
+    # its own anywhere else (in __next__ on error / at EOF, in __del__ ...):
+    # that close plus the server's would be two
+    for mname, m in sorted(c.methods.items()):
+        if mname == 'close':
+            continue
+        own = [x for x in walk_self(m.node) if isinstance(x, ast.Call) and isinstance(x.func, ast.Attribute) and x.func.attr == 'close'
+               and (is_self_attr(x.func.value, sattr) or is_name(x.func.value, 'self'))]
+        run.check(not own, 'CloseableStreamIterator.%s does not close the stream itself (the server calls close() exactly once)' % mname,
+                  m, own[0] if own else ('no close in ' + mname), where=m.loc(own[0] if own else None),
+                  runtime_witness='file-like resp.stream whose read() raises after streaming began, server without wsgi.file_wrapper: '
+                                  'the stream is closed by __next__ and again by the server\'s close()')
     # ---- WSGI _get_body wraps file-likes
     g = effective_method(p, WSGI_APP, '_get_body')
     gcfg = cfg_of(g, p)
